@@ -42,7 +42,8 @@ StoreJudge(e, pre, post) ==
   \cup F("accepted-but-breaks-direct-chain", ~(impl = "ok" /\ rD.class = "reject" /\ direct))
   \cup F("accepted-but-breaks-transitive-chain", ~(impl = "ok" /\ rD.class = "reject" /\ ~direct))
   \cup F("accepted-but-breaks-chain-under-tcp-override", ~(impl = "ok" /\ rD.class \in {"ok", "any"} /\ rT.class = "reject"))
-  \cup F("rejected-but-compiles", ~(impl = "reject" /\ rD.class = "ok"))
+  \* a rejection needs a reason in one of the judged contexts
+  \cup F("rejected-but-compiles", ~(impl = "reject" /\ rD.class = "ok" /\ rT.class = "ok"))
   \cup F("state", impl # "ok" \/ post = rD.new)
   \cup F("reject-unchanged", impl = "ok" \/ (post = pre /\ ~e.res.dump_changed))
 
@@ -64,7 +65,12 @@ CompileJudge(e, pre, post) ==
       ref == Chain(Bodies(pre), c.svc, [dc |-> c.ctx.dc, op |-> c.ctx.op])
       g   == [start |-> r.g.start, nodes |-> Range(r.g.nodes), targets |-> Range(r.g.targets)]
       ok  == r.class = "ok"
-      wf  == WellFormed(g)
+      uq  == UniqueIds(g)
+      cl  == Closed(g)
+      ac  == Acyclic(g)
+      ap  == AllPathsEndInResolverWithTarget(g)
+      cmp == ok /\ ref.errs = {} /\ uq /\ cl /\ ac /\ ap            \* both sides have a well-formed graph to compare
+      ag  == AbsGraph(r.g)
   IN
   IF r.hung THEN {"Terminates"}
   ELSE
@@ -74,12 +80,12 @@ CompileJudge(e, pre, post) ==
   \cup F("read-only", post = pre /\ ~r.dump_changed)
   \cup F("ok-iff-spec-ok", r.class = "panic" \/ (ok = (ref.errs = {})))
   \cup F("err-class", ok \/ ref.errs = {} \/ r.class \in ref.errs \cup {"other", "panic"})
-  \cup F("UniqueIds", ~ok \/ UniqueIds(g))
-  \cup F("Closed", ~ok \/ Closed(g))
-  \cup F("Acyclic", ~ok \/ Acyclic(g))
-  \cup F("AllPathsEndInResolverWithTarget", ~ok \/ AllPathsEndInResolverWithTarget(g))
-  \cup F("targets", ~ok \/ ref.errs # {} \/ ~wf \/ AbsGraph(r.g).targets = ref.g.targets)
-  \cup F("graph", ~ok \/ ref.errs # {} \/ ~wf \/ (AbsGraph(r.g) = ref.g /\ r.proto = ref.proto))
+  \cup F("UniqueIds", ~ok \/ uq)
+  \cup F("Closed", ~ok \/ cl)
+  \cup F("Acyclic", ~ok \/ ac)
+  \cup F("AllPathsEndInResolverWithTarget", ~ok \/ ap)
+  \cup F("targets", ~cmp \/ ag.targets = ref.g.targets)
+  \cup F("graph", ~cmp \/ (ag = ref.g /\ r.proto = ref.proto))
 
 Verdict(i) ==
   LET e == Trace[i]
